@@ -70,6 +70,21 @@ static void grid_f64(size_t k, int ctor) {
   });
   expect("grid-f64", got, valid);
 }
+// Grid<F32> from a sequence of IEEE doubles (iterator constructor): the STORED, i.e. rounded, values must be strictly increasing
+static void grid_f32_from_f64(size_t k) {
+  auto &E = Engine::get();
+  E.logic = nullptr;
+  std::vector<F64> v;
+  for (size_t i = 0; i < k; i++) v.push_back(F64::var("v" + std::to_string(i)));
+  Bool valid = Bool::of(k >= 2), src_increasing = Bool::T();
+  for (size_t i = 0; i + 1 < k; i++) {
+    valid = valid && sym::flt32(v[i], v[i + 1]);
+    src_increasing = src_increasing && sym::flt(v[i], v[i + 1]);
+  }
+  if (stats().paths == 0 && k >= 2) E.witness("distinct-doubles-can-round-to-equal-floats", src_increasing && !valid);
+  int got = outcome([&] { Grid<sym::F32> g(v.begin(), v.end()); });
+  expect("grid-f32-from-f64", got, valid);
+}
 static void grid_real(size_t k) {
   std::vector<Real> v;
   for (size_t i = 0; i < k; i++) v.push_back(Real::var("v" + std::to_string(i)));
@@ -229,6 +244,7 @@ void hx_cases(std::vector<Case> &cases) {
   for (size_t k = 0; k <= MAXK; k++)
     for (int ctor = 0; ctor < 3; ctor++) cases.push_back({"grid-f64/k" + std::to_string(k) + "/ctor" + std::to_string(ctor), [=] { grid_f64(k, ctor); }});
   for (size_t k = 0; k <= MAXK; k++) cases.push_back({"grid-real/k" + std::to_string(k), [=] { grid_real(k); }});
+  for (size_t k = 0; k + 1 <= MAXK; k++) cases.push_back({"grid-f32-from-f64/k" + std::to_string(k), [=] { grid_f32_from_f64(k); }});
   cases.push_back({"grid-null", [] { grid_null(); }});
   for (size_t n = 2; n <= MAXN; n++) cases.push_back({"support-spline/n" + std::to_string(n), [=] { support_spline(n); }});
   for (size_t m = 0; m <= MAXK; m++) cases.push_back({"generator-f64/m" + std::to_string(m), [=] { generator_f64(m); }});
